@@ -131,9 +131,11 @@ func (g *gen) inline(kind string, depth int) *Val {
 		v.Fields["name"] = fmt.Sprintf("q%d", g.r.Intn(1000000))
 		v.Fields["in"] = "query"
 		if g.r.Intn(4) == 0 {
-			g.kid(v, []string{"content", "application/json", "schema"}, "schemas", depth, "parameter.content.schema", false)
+			// a parameter described by content: JSON or any other media type (one entry)
+			mt := []string{"application/json", "application/json", "application/xml", "text/plain"}[g.r.Intn(4)]
+			g.kid(v, []string{"content", mt, "schema"}, "schemas", depth, "parameter.content.schema", false)
 			if g.r.Intn(2) == 0 {
-				g.kid(v, []string{"content", "application/json", "examples", "e"}, "examples", depth, "parameter.content.examples", false)
+				g.kid(v, []string{"content", mt, "examples", "e"}, "examples", depth, "parameter.content.examples", false)
 			}
 		} else {
 			g.kid(v, []string{"schema"}, "schemas", depth, "parameter.schema", false)
